@@ -5,7 +5,7 @@ from engines import array as A
 DIR = "Array"
 MODELS = ["Array/ArrayModel.vo"]
 DRIVER = "d_array.ml"
-SKIP = re.compile(r"\b(reduce|contains_value|copy_deep|destroy_cb)\b|kind=stack|\bs\d\b")
+SKIP = re.compile(r"\b(contains_value|copy_deep|destroy_cb)\b|kind=stack|\bs\d\b")
 
 def generate(rng, tier, mode="default"):
     out = []
@@ -13,7 +13,12 @@ def generate(rng, tier, mode="default"):
     for t in base:
         if SKIP.search(t[0]) or any(SKIP.search(l) for l in t[1:]):
             continue
+        if re.search(r"cap=\d{11,}|ef=\d{9,}", t[0]):
+            continue          # byte sizes depend on the element size; the sized engine has its own huge-capacity traces below
         esz = rng.choice([1, 1, 3, 8])
+        if re.search(r"ef=(3/2|5/4)", t[0]):
+            esz = 8      # growth can get stuck (D11): whether the library then still asks the allocator depends on the
+                         # element size (the request's byte size is representable for small elements); the model has 8-byte slots
         top = 256 ** esz
         ok = True
         lines = []
@@ -33,4 +38,12 @@ def generate(rng, tier, mode="default"):
         out.append([" ".join(h)] + lines)
     if tier == "quick":
         rng.shuffle(out); out = out[:6000]
+    # capacities around SIZE_MAX / element_size: the constructor refuses what the array model (8-byte slots) refuses
+    # only when esz = 8, so these traces use esz=8; for the other sizes see big() in the harness notes
+    for cap in (2**61 - 1, 2**61, 2**61 + 1, 2**62, 2**63, 2**64 - 3, 2**64 - 1):
+        for ef in ("2/1", "3/2"):
+            out.append(["T ? sized esz=8 cap=%d ef=%s mem=conf" % (cap, ef), "h0 add 5", "h0 add_at 6 0", "h0 size", "h0 get_last", "h0 destroy", "END"])
+    for cap in (1, 2, 4):
+        for ef in ("2305843009213693952/1", "1152921504606846976/1", "4611686018427387904/3"):
+            out.append(["T ? sized esz=8 cap=%d ef=%s mem=conf" % (cap, ef)] + ["h0 add %d" % (16 + k) for k in range(cap + 2)] + ["h0 size", "h0 get_last", "END"])
     return out
